@@ -160,7 +160,7 @@ def codec_features(draw, max_size=24, max_depth_bits=16, max_dwt=3, max_dwt_ho=2
     vp, pcm = draw(video_parameters(max_size=max_size, regular=regular, max_depth=max_depth_bits,
                                     pcm=pcm, simple=simple_vp))
     wavelet_index = draw(st.sampled_from(WAVELETS))
-    dwt_depth = draw(st.integers(0, max_dwt))
+    dwt_depth = draw(st.sampled_from([0] + list(range(1, max_dwt + 1)) * 2)) if max_dwt > 0 else 0
     asym = draw(st.sampled_from([False, False, True]))
     if asym:
         dwt_depth_ho = draw(st.integers(0, max_dwt_ho))
